@@ -84,6 +84,12 @@ def gen_case(rng, tier):
     c = {"kind": kind, "graph": g, "mods": gen.gen_modalities(rng, 1, 2), "max_time": mt, "dists": gen.gen_dists(rng, mt),
          "seed_params": rng.randrange(1 << 30), "seed": rng.randrange(1 << 30), "num": rng.randint(5, 20)}
     c["stage_dist"] = gen_stage_dist(rng, len(c["dists"]))
+    if len(c["mods"]) == 2 and c["mods"][0][0] < c["mods"][1][0] and rng.random() < 0.6:
+        # directed (C16-m1 / R4-g4-m1): two modalities registered in NON-alphabetical order with different values: the drawn
+        # table's columns follow the registration order, not the sorted names
+        c["mods"].reverse()
+        if c["mods"][0][1:3] == c["mods"][1][1:3]:
+            c["mods"][0][1] = 0.75 if c["mods"][0][1] != 0.75 else 0.875
     if kind == "uni":
         c["params"] = gen.gen_edge_params(rng, g)
     elif kind == "bi":
